@@ -9,7 +9,8 @@ def hllParams : Params :=
   { keyBits := DSGen.hll_KEY_BITS_26, lgInitList := DSGen.hll_LG_INIT_LIST_SIZE, lgInitSet := DSGen.hll_LG_INIT_SET_SIZE,
     resizeNum := DSGen.hll_RESIZE_NUMER, resizeDen := DSGen.hll_RESIZE_DENOM,
     listToHllBelow := DSGen.hll_LIST_TO_HLL_BELOW_LGK, setMaxBelow := DSGen.hll_SET_MAX_LG_BELOW_LGK,
-    auxToken := DSGen.hll_AUX_TOKEN, lgAuxArrInts := DSGen.hll_LG_AUX_ARR_INTS.toList }
+    auxToken := DSGen.hll_AUX_TOKEN, unionDownsampleRebuilds := DSGen.hll_unionDownsampleRebuilds,
+    unionResetToMaxK := DSGen.hll_unionResetToMaxK, lgAuxArrInts := DSGen.hll_LG_AUX_ARR_INTS.toList }
 
 def hllTables : Tables :=
   { couponX := fl DSGen.hll_couponX, couponY := fl DSGen.hll_couponY, compX := DSGen.hll_compX.map fl,
